@@ -130,23 +130,50 @@ def r2_pipeline(ctx):
                   detail=sorted({str(n) for n in seqs}), expected=want)
     ctx.form(bool(copies) and all(copies), NB, "BaseNode.modify_value", "works on a copy of the definition's typed value (type, width, sign kept)")
     ctx.form(bool(final) and all(final), NB, "BaseNode.modify_value", "the converted value is stored through the node's own setter; none is stored as none")
-    # conversion direction in NumberType.convert
+    # conversion in NumberType.convert: decision table over (unit given, own unit present, units equal, environment given)
+    from ..flowexpr import consistent
     fn = ctx.fn(TN, "NumberType.convert")
-    qs = [c for c in ast.walk(fn) if isinstance(c, ast.Call) and isinstance(c.func, ast.Attribute) and c.func.attr == "value"
-          and isinstance(c.func.value, ast.Call) and dotted_name(c.func.value.func) == "Quantity"]
-    ctx.floor("conversion expressions in NumberType.convert", len(qs), 1, file=TN)
-    for c in qs:
-        q = c.func.value
-        ok = len(q.args) == 2 and norm(q.args[1]) == "self.unit" and "self.value" in norm(q.args[0]) and [norm(a) for a in c.args] == ["unit"]
-        ctx.check(ok, TN, "NumberType.convert", "value is read in its own unit and asked for in the target unit", detail=norm(c),
-                  expected="Quantity(float(self.value), self.unit).value(unit)")
-    src = norm(fn).replace("\n", " ")
-    ctx.form("if unit: if self.unit and self.unit != unit:" in src, TN, "NumberType.convert",
-              "a unit-less assignment (or an unchanged unit) is taken as it is; otherwise converted", detail=None)
-    adopt = [a for a in ast.walk(fn) if isinstance(a, ast.Assign) and norm(a.targets[0]) == "self.unit"]
-    ctx.check(len(adopt) == 1 and norm(adopt[0].value) == "unit", TN, "NumberType.convert", "after conversion the value carries the target unit")
-    envs = [w for w in ast.walk(fn) if isinstance(w, ast.With) and "UnitEnvironment(env.units)" in norm(w.items[0].context_expr)]
-    ctx.check(len(envs) == 1, TN, "NumberType.convert", "custom units of the environment are in scope during the conversion")
+    pa = [a.arg for a in fn.args.args]
+    if len(pa) != 3:
+        ctx.unrecognised(TN, "NumberType.convert", "signature", f"parameters {pa}")
+        return
+    _, u, en = pa
+    ps = paths(fn)
+    want_val = f"Quantity(float(self.value), self.unit).value({u})"
+    rows = {"direction": [], "gate": [], "adopt": [], "env": []}
+    unk = []
+    for given in (True, False):
+        for own in (True, False):
+            for equal in (True, False):
+                for noenv in (True, False):
+                    def atom(e, _g=given, _o=own, _e=equal, _n=noenv):
+                        return {u: _g, "self.unit": _o, f"self.unit != {u}": not _e, f"self.unit == {u}": _e, f"{u} != self.unit": not _e, f"{u} == self.unit": _e,
+                                f"{en} is None": _n, f"{en} is not None": not _n, en: not _n}.get(norm(e))
+                    cs, un = consistent(ps, atom)
+                    unk += un
+                    conv = given and own and not equal
+                    for q in cs:
+                        vals = [norm(e.resolved) for e in q.events if e.kind == "store" and e.extra == "self.value"]
+                        units = [norm(e.resolved) for e in q.events if e.kind == "store" and e.extra == "self.unit"]
+                        withs = [norm(e.resolved) for e in q.events if e.kind == "expr" and e.extra == "with"]
+                        rows["gate"].append((conv, bool(vals), f"unit={given} own={own} equal={equal}"))
+                        if conv:
+                            rows["direction"].append(vals)
+                            rows["adopt"].append(units)
+                            if not noenv:
+                                idx_w = [i for i, e in enumerate(q.events) if e.kind == "expr" and e.extra == "with" and norm(e.resolved) == f"UnitEnvironment({en}.units)"]
+                                idx_s = [i for i, e in enumerate(q.events) if e.kind == "store" and e.extra == "self.value"]
+                                rows["env"].append(bool(idx_w) and bool(idx_s) and idx_w[0] < idx_s[0])
+    if unk:
+        ctx.unrecognised(TN, "NumberType.convert", "conversion table", f"test not decided: {sorted(set(unk))[:2]}")
+    else:
+        ctx.floor("conversion paths in NumberType.convert", len(rows["direction"]), 2, file=TN)
+        ctx.check(all(v == [want_val] for v in rows["direction"]), TN, "NumberType.convert", "value is read in its own unit and asked for in the target unit",
+                  detail=sorted({str(v) for v in rows["direction"]}), expected=want_val)
+        badg = sorted({g[2] for g in rows["gate"] if g[0] != g[1]})
+        ctx.check(not badg, TN, "NumberType.convert", "a unit-less assignment (or an unchanged unit) is taken as it is; otherwise converted", detail=badg or None)
+        ctx.check(all(x == [u] for x in rows["adopt"]), TN, "NumberType.convert", "after conversion the value carries the target unit", detail=sorted({str(x) for x in rows["adopt"]}))
+        ctx.check(bool(rows["env"]) and all(rows["env"]), TN, "NumberType.convert", "custom units of the environment are in scope during the conversion")
 
 
 def _wrapper_classes(ctx):
